@@ -39,7 +39,7 @@ class ACMRequestHandlers(USBRequestHandler):
         # Class request handlers.
         #
 
-        with m.If(setup.type == USBRequestType.CLASS):
+        with m.If((setup.type == USBRequestType.CLASS) & ~setup.is_in_request):
             with m.Switch(setup.request):
 
                 # SET_LINE_CODING: The host attempts to tell us how it wants serial data
